@@ -45,7 +45,7 @@ void oggpack_write(oggpack_buffer *b, unsigned long value, int bits)
    (bm)->short_per_long >= 1 && (bm)->short_per_long <= 128)
 
 #define BLOB(vb, i) (((vorbis_block_internal *)(vb)->internal)->packetblob[i])
-#define BLOB_FRESH(vb, i) (FRESH(BLOB(vb, i), sizeof(oggpack_buffer)) && INV_OPBW(BLOB(vb, i)) && BLOB(vb, i)->endbyte < (1L << 39))
+#define BLOB_FRESH(vb, i) (__CPROVER_rw_ok(BLOB(vb, i), sizeof(oggpack_buffer)) && INV_OPBW(BLOB(vb, i)) && BLOB(vb, i)->endbyte < (1L << 39))
 #define ALL_BLOBS_FRESH(vb) (BLOB_FRESH(vb, 0) && BLOB_FRESH(vb, 1) && BLOB_FRESH(vb, 2) && BLOB_FRESH(vb, 3) && \
    BLOB_FRESH(vb, 4) && BLOB_FRESH(vb, 5) && BLOB_FRESH(vb, 6) && BLOB_FRESH(vb, 7) && BLOB_FRESH(vb, 8) && \
    BLOB_FRESH(vb, 9) && BLOB_FRESH(vb, 10) && BLOB_FRESH(vb, 11) && BLOB_FRESH(vb, 12) && BLOB_FRESH(vb, 13) && \
@@ -57,18 +57,37 @@ void oggpack_write(oggpack_buffer *b, unsigned long value, int bits)
    path is taken via harness-set ghosts to keep the contract readable) */
 long g_R0;            /* minmax_reservoir at entry */
 
+/* The object graph (block, internal, dsp state, private state, info, setup,
+   15 blobs) is built by the harness with real allocations, so that the case
+   split (which limits are active, block flag) is made by ASSIGNING constants:
+   CBMC then prunes the inactive branches instead of bit-blasting them.  The
+   cases partition the configurations (units/u_bitrate.py). */
+#define HFRESH(p, n) __CPROVER_rw_ok((p), (n))
 int vorbis_bitrate_addblock(vorbis_block *vb)
-  __CPROVER_requires(FRESH(vb, sizeof(*vb)) && (vb->W == 0 || vb->W == 1))
-  __CPROVER_requires(FRESH(vb->internal, sizeof(vorbis_block_internal)))
-  __CPROVER_requires(FRESH(vb->vd, sizeof(vorbis_dsp_state)))
-  __CPROVER_requires(FRESH(vb->vd->backend_state, sizeof(private_state)))
-  __CPROVER_requires(FRESH(vb->vd->vi, sizeof(vorbis_info)) && vb->vd->vi->rate >= 1)
-  __CPROVER_requires(FRESH(vb->vd->vi->codec_setup, sizeof(codec_setup_info)))
+  __CPROVER_requires(HFRESH(vb, sizeof(*vb)) && (vb->W == 0 || vb->W == 1))
+  __CPROVER_requires(HFRESH(vb->internal, sizeof(vorbis_block_internal)))
+  __CPROVER_requires(HFRESH(vb->vd, sizeof(vorbis_dsp_state)))
+  __CPROVER_requires(HFRESH(vb->vd->backend_state, sizeof(private_state)))
+  __CPROVER_requires(HFRESH(vb->vd->vi, sizeof(vorbis_info)) && vb->vd->vi->rate >= 1)
+  __CPROVER_requires(HFRESH(vb->vd->vi->codec_setup, sizeof(codec_setup_info)))
   __CPROVER_requires(CI_OF(vb)->blocksizes[0] >= 64 && CI_OF(vb)->blocksizes[1] <= 8192 &&
                      CI_OF(vb)->blocksizes[0] <= CI_OF(vb)->blocksizes[1])
   __CPROVER_requires(ALL_BLOBS_FRESH(vb))
   __CPROVER_requires(BM_OF(vb)->managed == 1 && INV_BM(BM_OF(vb), BI_OF(vb)))
   __CPROVER_requires(g_R0 == BM_OF(vb)->minmax_reservoir)
+#if VERIF_LIMITS == 1
+  __CPROVER_requires(BM_OF(vb)->max_bitsper > 0)
+#elif VERIF_LIMITS == 2
+  __CPROVER_requires(BM_OF(vb)->min_bitsper > 0)
+#elif VERIF_LIMITS == 3
+  __CPROVER_requires(BM_OF(vb)->min_bitsper > 0 && BM_OF(vb)->max_bitsper > 0)
+#endif
+#ifdef VERIF_BIAS
+  /* bounded in one dimension: the reservoir bias is one of five fixed values
+     (the double multiplication reservoir_bits*bias is what no back end decides
+     symbolically within 40 min); everything else stays symbolic */
+  __CPROVER_requires(BI_OF(vb)->reservoir_bias == VERIF_BIAS)
+#endif
 #ifdef VERIF_NOAVG
   __CPROVER_requires(BM_OF(vb)->avg_bitsper == 0)
   __CPROVER_requires(BM_OF(vb)->avgfloat >= -0.5 && BM_OF(vb)->avgfloat <= 14.49)
@@ -100,11 +119,12 @@ int vorbis_bitrate_addblock(vorbis_block *vb)
                                    TARGET(vb, BM_OF(vb)->min_bitsper))
   __CPROVER_ensures(BM_OF(vb)->vb == vb)
 #ifdef VERIF_ENFORCE_vorbis_bitrate_addblock
-  REACH_ENSURES(BM_OF(vb)->max_bitsper > 0 && BM_OF(vb)->min_bitsper == 0)
-  REACH_ENSURES(BM_OF(vb)->min_bitsper > 0 && BM_OF(vb)->max_bitsper == 0)
-  REACH_ENSURES(BM_OF(vb)->min_bitsper > 0 && BM_OF(vb)->max_bitsper == BM_OF(vb)->min_bitsper)
-  REACH_ENSURES(BM_OF(vb)->minmax_reservoir == BI_OF(vb)->reservoir_bits && g_R0 < BM_OF(vb)->minmax_reservoir)
+  REACH_ENSURES(BM_OF(vb)->minmax_reservoir != g_R0)
+  REACH_ENSURES(BM_OF(vb)->choice == 0 && BM_OF(vb)->minmax_reservoir > g_R0)
+#if VERIF_LIMITS == 3
+  REACH_ENSURES(BM_OF(vb)->max_bitsper == BM_OF(vb)->min_bitsper)
   REACH_ENSURES(BM_OF(vb)->minmax_reservoir == 0 && g_R0 > 0)
+#endif
 #endif
   ;
 
